@@ -86,6 +86,8 @@ def explore(facts, max_depth=6, bursts=None):
                     if op == "register":
                         if pid in reg:
                             viol.append((cell, "register on an already registered child"))
+                        if reg - {pid}:
+                            viol.append((cell, "a child is registered while another child of the same wrapper is still registered (the outgoing child must be unregistered first: both may wrap the same fd)"))
                         reg.add(pid)
                     elif op in ("unregister", "reregister"):
                         if pid not in reg:
